@@ -642,7 +642,7 @@ class Stairs:
         Stairs.diff
         """
         if self._data is None:
-            return Stairs(initial_value=self.initial_value)
+            return Stairs(initial_value=self.initial_value, closed=self.closed)
         return Stairs._new(
             initial_value=self.initial_value,
             data=self._data.set_index(self._data.index + delta),
